@@ -203,6 +203,7 @@ def run_shard(sh):
   T.hetero_stream(sh, "sv", 2, mech)
   T.descloop_stream(sh, "sv", 4 if sh.tier == "quick" else 40, mech)
   T.castuse_stream(sh, "sv", 6 if sh.tier == "quick" else 50, mech)
+  T.feedback_stream(sh, "sv", 4 if sh.tier == "quick" else 40, mech)
   T.constuse_stream(sh, "sv", 4 if sh.tier == "quick" else 40, mech)
   T.localname_stream(sh, "sv", 4 if sh.tier == "quick" else 40, mech)
   T.nested_ifc_stream(sh, "sv", 3, mech)
